@@ -16,7 +16,22 @@ Inductive case :=
         (nodes : list (Z * list (input * obs)))
         (marks : list nat)          (* per node: number of inputs handled before synchrony *)
         (h0 : Z)                    (* the highest height any correct node was at *)
-        (bound : Z).                (* rounds *)
+        (bound : Z)                 (* rounds *)
+(* the timeout schedule of a configuration: base and per-round delta (ns) of the propose / prevote /
+   precommit timeouts as configured, and what ConsensusConfig.Propose/Prevote/Precommit(r) answered
+   for r = 0, 1, 2, ... *)
+| CTimeouts (bases deltas : Z * Z * Z) (rows : list (Z * (Z * Z * Z))).
+
+(* timeouts grow with the round: each of the three strictly increases from one round to the next
+   whenever its configured delta is positive (and never decreases) *)
+Fixpoint grows (d : Z * Z * Z) (rows : list (Z * (Z * Z * Z))) : bool :=
+  match rows with
+  | (r1, (p1, v1, c1)) :: (((r2, (p2, v2, c2)) :: _) as rest) =>
+    let '(dp, dv, dc) := d in
+    (r1 <? r2) && (if 0 <? dp then p1 <? p2 else p1 <=? p2) && (if 0 <? dv then v1 <? v2 else v1 <=? v2)
+    && (if 0 <? dc then c1 <? c2 else c1 <=? c2) && grows d rest
+  | _ => true
+  end.
 
 (* the round a node was in at height h0 when synchrony began (0 if it was below h0) *)
 Definition round_at_mark (steps : list (input * obs)) (mark : nat) (h0 : Z) : Z :=
@@ -34,6 +49,8 @@ Definition decided_round (steps : list (input * obs)) (h0 : Z) : option Z :=
 Definition last_panicked (steps : list (input * obs)) : bool :=
   match rev steps with (_, o) :: _ => o_panic o | [] => false end.
 
+Definition mism (b : bool) (code : N) : verdict := if b then V_ok else V_mismatch code.
+
 Definition check (c : case) : verdict :=
   match c with
   | CSync vals skip ih props nodes marks h0 bound =>
@@ -48,4 +65,12 @@ Definition check (c : case) : verdict :=
     first_of (viol live 1
               :: viol (agree (flat_map (fun nd => decisions (snd nd)) nodes)) 2
               :: flat_map (node_verdict vals skip ih props) nodes)
+  | CTimeouts bases deltas rows =>
+    let '(bp, bv, bc) := bases in
+    let '(dp, dv, dc) := deltas in
+    first_of [
+      viol (grows deltas rows) 3;
+      (* model: base + delta * round, in nanoseconds *)
+      mism (forallb (fun row => let '(r, (p, v, c)) := row in
+                       (p =? bp + dp * r) && (v =? bv + dv * r) && (c =? bc + dc * r)) rows) 14 ]
   end.
